@@ -27,8 +27,14 @@ def expect_sense(kinds, KINDS, iterations):
     for _ in range(max(1, iterations)):
         for k in kinds:
             brty, what = KINDS[k]
-            if what == 'badsel':
-                return ('valueerror', None)
+            if what in ('badsel', 'badatr'):
+                # "Errors found in the targets argument list raise exceptions
+                # only if exactly one target is given.  If multiple targets
+                # are provided, any target that is not supported or has
+                # invalid attributes is just ignored"
+                if single:
+                    return ('valueerror', None)
+                continue
             if what is None:                    # unknown technology letter
                 if single:
                     return ('unsupported', None)
